@@ -485,6 +485,9 @@ func c15GenName(rng *kit.Rand, r *c15Role) string {
 	} else {
 		base = kit.Pick(rng, c15Foreign)
 	}
+	if r.AllowLocalhost && rng.Chance(1, 10) {
+		base = kit.Pick(rng, []string{"localhost", "localdomain"})
+	}
 	lab := func() string {
 		switch rng.Intn(10) {
 		case 0:
